@@ -61,7 +61,14 @@ impl Options {
     /// and receiving a corresponding [`Pong`](crate::ws::Message::Pong).
     #[must_use]
     pub fn keepalive_timeout(mut self, timeout: crate::timing::OptionalDuration) -> Self {
-        self.keepalive_timeout = timeout.max(self.keepalive_interval);
+        // An unset interval compares greater than any duration, so only clamp against
+        // an interval that is known. The final clamp happens when the options are used
+        // so that the result does not depend on the order of the two calls.
+        self.keepalive_timeout = if self.keepalive_interval.is_some() {
+            timeout.max(self.keepalive_interval)
+        } else {
+            timeout
+        };
         self
     }
 
